@@ -39,7 +39,7 @@ COMPONENTS = {
              'inside the TLS stream raises SSLError as real TLS would)',
              'scripted client / scripted server', 'capturing queue'],
 }
-BUDGET = {'quick': 12000, 'thorough': 800000}
+BUDGET = {'quick': 30000, 'thorough': 800000}
 PROBES = ['injected-behind-starttls', 'injected-behind-220',
           'handshake-completed', 'handshake-failed-on-injection',
           'open-transaction-at-starttls', 'auth-in-clear', 'auth-over-tls',
@@ -103,8 +103,9 @@ def generate(seed, tier='quick'):
                     rng.choice(['', '', 'zid'])
                 shape = rng.choice(['initial', 'challenge', 'cancel',
                                     'badb64', 'empty', 'cancel-initial'])
+                spell = rng.choice(['upper', 'upper', 'lower', 'title'])
                 steps.append({'op': 'auth', 'mech': mech, 'u': u, 'p': p,
-                              'z': z, 'shape': shape})
+                              'z': z, 'shape': shape, 'spell': spell})
             elif c < 0.58:
                 steps.append({'op': 'authraw', 'line': rng.choice([
                     'AUTH', 'AUTH FOO', 'AUTH FOO bar', 'AUTH PLAIN =',
@@ -398,17 +399,20 @@ def _auth(world, scn, result):
                 seq = [resp]
             else:
                 seq = [b64(u), b64(p)]
+            # mechanism names are case-insensitive on the wire
+            wmech = {'lower': mech.lower(), 'title': mech.title()}.get(
+                stp.get('spell'), mech)
             if shape == 'initial':
-                first = 'AUTH %s %s' % (mech, seq[0])
+                first = 'AUTH %s %s' % (wmech, seq[0])
                 rest = seq[1:]
             elif shape == 'cancel-initial':
                 world.probe('auth-cancel')
-                first = 'AUTH %s *' % mech
+                first = 'AUTH %s *' % wmech
                 rest = []
                 sent = None
             else:
                 world.probe('auth-challenge-path')
-                first = 'AUTH %s' % mech
+                first = 'AUTH %s' % wmech
                 rest = list(seq)
                 if shape == 'cancel':
                     world.probe('auth-cancel')
